@@ -61,11 +61,13 @@ def correspondence(ctx):
 class Oracle:
     """max-of-parts on the implementation, node by node."""
 
-    def __init__(self):
+    def __init__(self, cfg_text=None):
         from dippy.core.analyzer import analyze
+        from dippy.core.config import parse_config
 
         self.analyze = analyze
-        self.cfg = _cfg()
+        self.cfg_text = cfg_text if cfg_text is not None else B.CONFIG_TEXT
+        self.cfg = parse_config(self.cfg_text)
         self.cwd = Path("/tmp/probe")
         self.cache: dict[str, tuple[str, str]] = {}
         self.evals = 0
@@ -129,7 +131,7 @@ class Oracle:
                 worst = a
         if act != worst:
             return {
-                "input": {"command": text, "config": B.CONFIG_TEXT, "cwd": str(self.cwd)},
+                "input": {"command": text, "config": self.cfg_text, "cwd": str(self.cwd)},
                 "observed": {"verdict": act, "reason": reason, "parts": [(l, t, self.verdict(t)[0]) for l, t in parts]},
                 "required": f"verdict == most restrictive of the parts == {worst}",
                 "oracle": "max-of-parts",
@@ -169,7 +171,7 @@ class Oracle:
         v = self.verdict(q.render())
         stats["wrap_checks"] += 1
         if not v[1].startswith("parse error") and v[0] != base[0]:
-            out.append({"input": {"command": q.render(), "config": B.CONFIG_TEXT, "cwd": str(self.cwd)}, "observed": {"verdict": v[0], "unwrapped": self.text(p), "unwrapped_verdict": base[0]}, "required": "wrapping changes nothing", "oracle": "depth-free"})
+            out.append({"input": {"command": q.render(), "config": self.cfg_text, "cwd": str(self.cwd)}, "observed": {"verdict": v[0], "unwrapped": self.text(p), "unwrapped_verdict": base[0]}, "required": "wrapping changes nothing", "oracle": "depth-free"})
         if isinstance(p, (B.Seq, B.Pipe)) and len(p.items) >= 2:
             items = list(p.items)
             r.shuffle(items)
@@ -184,7 +186,7 @@ class Oracle:
                 return
             stats["perm_dup_checks"] += 1
             if not v2[1].startswith("parse error") and v2[0] != want:
-                out.append({"input": {"command": q2.render(), "config": B.CONFIG_TEXT, "cwd": str(self.cwd)}, "observed": {"verdict": v2[0], "original": self.text(p), "original_verdict": want}, "required": "order and repetition of parts change nothing", "oracle": "perm-dup"})
+                out.append({"input": {"command": q2.render(), "config": self.cfg_text, "cwd": str(self.cwd)}, "observed": {"verdict": v2[0], "original": self.text(p), "original_verdict": want}, "required": "order and repetition of parts change nothing", "oracle": "perm-dup"})
 
 
 def search(ctx):
